@@ -46,7 +46,7 @@ func obsOf(r *sup.Result, mode string) isoObs {
 func checkC19() int {
 	c := NewCheck("C19")
 	r := rand.New(rand.NewSource(subSeed(c.Seed, 1919)))
-	c.Rule = "sequences of 5..40 programs (G1 programs, ill-typed mutants, unparseable edits, complete programs followed by an illegal character, bare-expression programs, twins that differ in a few mode words only (own mode / replicable, inferable head annotations omitted), with repeats) are parsed, typechecked and executed one after another inside ONE worker process (async / sync alternating, np for contraction-free programs), also in reverse order and with every program doubled; baseline: each program alone in a fresh worker; oracle: the i-th program's (parse verdict, parse diagnostic class, what the parser produced: process / function / type names and arities, type verdict, printed multiset, clean completion) equals its baseline, no print or monitor event of an earlier run is observed during a later one, and the worker survives the whole sequence; non-trivial = distinct sequence of >= 5 programs containing accepted and rejected ones"
+	c.Rule = "sequences of 5..40 programs (G1 programs, ill-typed mutants, unparseable edits, complete programs followed by an illegal character, bare-expression programs, twins that differ in a few mode words only (own mode / replicable, inferable head annotations omitted), programs padded to the same large number (48) of function definitions, with repeats) are parsed, typechecked and executed one after another inside ONE worker process (async / sync alternating, np for contraction-free programs), also in reverse order and with every program doubled; baseline: each program alone in a fresh worker; oracle: the i-th program's (parse verdict, parse diagnostic class, what the parser produced: process / function / type names and arities, type verdict, printed multiset, clean completion) equals its baseline, no print or monitor event of an earlier run is observed during a later one, and the worker survives the whole sequence; non-trivial = distinct sequence of >= 5 programs containing accepted and rejected ones"
 	c.Assumptions = []string{"each program ends by exact quiescence before the next starts, so stragglers can only come from genuinely leaked activity", "prints are attributed to runs through the RuntimeEnvironment the print hook receives"}
 	base := genCases(c, c.pick(60, 600), 19, nil)
 	type item struct {
@@ -86,6 +86,17 @@ func checkC19() int {
 			t := []string{"print " + l + "; close self\n", "x <- new close self; print " + l + "; wait x; close self\n", "x : lin 1 <- new close self;\nwait x; print " + l + "; close self\n"}[r.Intn(3)]
 			items = append(items, item{t, mode, "bare-expression", true})
 		}
+		if i%4 == 3 && len(pc.P.Funcs) < 48 {
+			// programs padded to the same large number of function definitions (48): they share
+			// the padding's names and, as all generated programs do, many of their own
+			q := pc.P.Clone()
+			for j := 0; len(q.Funcs) < 48; j++ {
+				q.Funcs = append(q.Funcs, &vast.Func{Name: fmt.Sprintf("padf%d", j), Params: []vast.Var{{N: "x", T: vast.Unit(vast.Rep)}}, Ret: vast.Unit(vast.Rep), Body: &vast.Term{Op: "wait", X: "x", Cont: &vast.Term{Op: "close", X: "self"}}})
+			}
+			if typing.Check(q).Kind == typing.Accept {
+				items = append(items, item{q.Text(), mode, "padded-48-functions", pc.Contr})
+			}
+		}
 		if i%3 == 2 {
 			// twins: the same program in its own mode and recoloured to replicable, both written
 			// with every inferable head annotation omitted: the texts differ in a few mode words only
@@ -98,6 +109,18 @@ func checkC19() int {
 				}
 			}
 		}
+	}
+	// a well-typed program that deadlocks at once: a ring of 300 top-level forwards; whatever a
+	// run leaves behind (parked goroutines, counters) is multiplied by repeating it
+	ringIdx := -1
+	{
+		var b strings.Builder
+		const ring = 300
+		for k := 0; k < ring; k++ {
+			fmt.Fprintf(&b, "prc[ring%d] : lin 1 = fwd self ring%d\n", k, (k+1)%ring)
+		}
+		items = append(items, item{b.String(), "async", "forward-ring", false})
+		ringIdx = len(items) - 1
 	}
 	job := func(it item, id int) sup.Job {
 		return sup.Job{Kind: "run", Text: it.text, Mode: it.mode, Tag: it.kind, Seed: uint64(id), Profile: "gosched", Procs: 4, EventBudget: 3000000}
@@ -184,6 +207,34 @@ func checkC19() int {
 			}
 			sjobs = append(sjobs, j)
 			metas = append(metas, seqMeta{ix, kind})
+		}
+	}
+	// the deadlocking ring 24 times in a row between ordinary programs
+	if ringIdx >= 0 && baseObs[ringIdx] != nil {
+		for rep := 0; rep < c.pick(1, 6); rep++ {
+			var idx []int
+			pickOrd := func() {
+				for tries := 0; tries < 50; tries++ {
+					k := r.Intn(len(items))
+					if baseObs[k] != nil && items[k].kind == "G1" {
+						idx = append(idx, k)
+						return
+					}
+				}
+			}
+			pickOrd()
+			for q := 0; q < 24; q++ {
+				idx = append(idx, ringIdx)
+			}
+			for q := 0; q < 6; q++ {
+				pickOrd()
+			}
+			j := sup.Job{Kind: "seq"}
+			for _, k := range idx {
+				j.Seq = append(j.Seq, job(items[k], k))
+			}
+			sjobs = append(sjobs, j)
+			metas = append(metas, seqMeta{idx, "after-deadlocks"})
 		}
 	}
 	// sequences on one long-lived RuntimeEnvironment through the real entry point
